@@ -13,14 +13,20 @@ package c15
 import (
 	"bytes"
 	"fmt"
+	"io"
 	"math/rand"
 	"strconv"
 	"strings"
+	"time"
 
 	"github.com/bokysan/socketace/v2/internal/socketace"
+	"github.com/bokysan/socketace/v2/internal/streams/dns/commands"
+	dutil "github.com/bokysan/socketace/v2/internal/streams/dns/util"
+	"github.com/bokysan/socketace/v2/internal/util/enc"
 	"github.com/bokysan/socketace/v2/internal/version"
 	"github.com/bokysan/socketace/v2/internal/zzverif/vcommon"
 	mdns "github.com/miekg/dns"
+	"golang.org/x/net/dns/dnsmessage"
 )
 
 const (
@@ -281,7 +287,12 @@ func datagramGarbage(rng *rand.Rand, base, domain string, i int) (string, []byte
 	}
 	qts := []uint16{mdns.TypeCNAME, mdns.TypeTXT, mdns.TypeA, mdns.TypeMX, mdns.TypeNULL, mdns.TypeSRV, mdns.TypeANY, mdns.TypeAAAA}
 	qt := qts[rng.Intn(len(qts))]
-	switch i % 8 {
+	switch i % 9 {
+	case 8:
+		// well-formed DATA queries of the tunnel under the small session identifiers other peers of the endpoint are given:
+		// junk payload that a server has to turn away, because the sender's address owns none of these sessions. The
+		// descriptor holds the recipe only (domain and a seed); sprayDatagrams makes the datagrams when they are sent.
+		return "dgrams:data-queries-under-small-session-ids", []byte(fmt.Sprintf("%s %d", domain, rng.Int63()))
 	case 0:
 		return "dgram:1-byte", rnd(1)
 	case 1:
@@ -302,6 +313,56 @@ func datagramGarbage(rng *rand.Rand, base, domain string, i int) (string, []byte
 		b[2] |= 0x80 // a response, not a query
 		return "dgram:dns-response", b
 	}
+}
+
+// sprayDatagrams sends the forged data queries of the class above: for the session identifiers 0 and 1, every eighth
+// sequence number of the whole 16-bit range in the codec of an established session (so that whatever a session's next
+// sequence number is, some of the queries lie just ahead of it) and the first sixteen in the codec of a session's first
+// packets; the acknowledgement fields sweep the range as well. Paced, so that the endpoint's socket buffer takes them.
+func sprayDatagrams(w io.Writer, recipe []byte) (int, error) {
+	var domain string
+	var seed int64
+	if _, err := fmt.Sscanf(string(recipe), "%s %d", &domain, &seed); err != nil {
+		return 0, err
+	}
+	rng := rand.New(rand.NewSource(seed))
+	ser := commands.Serializer{Domain: domain}
+	sent := 0
+	one := func(e enc.Encoder, uid, seq uint16) error {
+		data := make([]byte, 20+rng.Intn(60))
+		rng.Read(data)
+		req := &commands.PacketRequest{UserId: uid, LastAckedSeqNo: seq + 0x7000, Packet: &dutil.Packet{SeqNo: seq, Data: data}}
+		m, err := ser.EncodeDnsRequestWithParams(req, dnsmessage.Type(mdns.TypeNULL), e)
+		if err != nil {
+			return nil
+		}
+		m.Id = uint16(rng.Intn(65536))
+		b, err := m.Pack()
+		if err != nil {
+			return nil
+		}
+		if _, err := w.Write(b); err != nil {
+			return err
+		}
+		sent++
+		if sent%32 == 0 {
+			time.Sleep(time.Millisecond)
+		}
+		return nil
+	}
+	for uid := uint16(0); uid < 2; uid++ {
+		for seq := 0; seq < 16; seq++ {
+			if err := one(enc.Base32Encoding, uid, uint16(seq)); err != nil {
+				return sent, err
+			}
+		}
+		for seq := 0; seq < 65536; seq += 8 {
+			if err := one(enc.Base128Encoding, uid, uint16(seq)); err != nil {
+				return sent, err
+			}
+		}
+	}
+	return sent, nil
 }
 
 // rawGarbage builds garbage for the bare transport of a stream endpoint that expects TLS.
